@@ -91,6 +91,12 @@ def problems():
                    lambda t, y, p: np.array([-y[0] + y[1], y[1] - (1.0 + np.sin(t) + np.cos(t))]),
                    lambda t, y, p: csc_array(np.array([[-1.0, 1.0], [0.0, 1.0]])), {}),
               np.array([1.0, 2.0]), lambda t: np.array([1.0 + np.sin(t), 1.0 + np.sin(t) + np.cos(t)]), [0]))
+    # P8: a non-autonomous problem that runs at late times (t0 = 1000): the time derivative is a difference quotient in t, whose
+    #     truncation error must not grow with |t|      y' = -(y - sin 20t)(1 + y^2) + 20 cos 20t,  y = sin 20t
+    P.append(("ode y'=-(y-sin 20t)(1+y^2)+20cos 20t from t0=1000", nDAE(csc_array(np.array([[1.0]])),
+                                                                   lambda t, y, p: -(y - np.sin(20 * t)) * (1 + y ** 2) + 20 * np.cos(20 * t),
+                                                                   lambda t, y, p: csc_array(np.array([[-(1 + y[0] ** 2) - 2 * y[0] * (y[0] - np.sin(20 * t))]])), {}),
+              np.array([np.sin(20 * 1000.0)]), lambda t: np.array([np.sin(20 * t)]), [0], 1000.0))
     return P
 
 
@@ -99,7 +105,7 @@ def fixed_grid_failures():
     included), with the number of steps the interval implies, and a dense request gets all its nodes"""
     from Solverz import Rodas, Opt
     out = []
-    name, dae, y0, exact, comps = problems()[0]
+    name, dae, y0, exact, comps = problems()[0][:5]
     for (a, b, h) in ((0.0, 2.0, 0.1), (0.0, 2.0, 0.05), (0.0, 1.0, 0.3), (0.5, 1.75, 0.025), (-1.0, 1.0, 0.1), (0.0, 1.0, 0.125)):
         for dense in (False, True):
             nn = int(np.ceil((b - a) / h - 1e-6))
@@ -131,13 +137,14 @@ def slope(hs, es, floor=3e-13):
 
 def ladder(scheme, prob, ks, dense_only_ode=True, floor=3e-13):
     from Solverz import Rodas, Opt
-    name, dae, y0, exact, comps = prob
+    name, dae, y0, exact, comps = prob[:5]
+    tstart = prob[5] if len(prob) > 5 else 0.0
     p, q = SCHEMES[scheme]
     hs, e_step, e_dense = [], [], []
     for k in ks:
         h = 2.0 ** (-k)
         n = 2 ** k
-        nodes = np.array(sorted(set([i * h for i in range(n + 1)] + [(i + 0.5) * h for i in range(n)])))
+        nodes = tstart + np.array(sorted(set([i * h for i in range(n + 1)] + [(i + 0.5) * h for i in range(n)])))
         sol = quiet(Rodas, dae, nodes, y0.copy(), Opt(fix_h=True, hinit=h, scheme=scheme))
         T = np.asarray(sol.T)
         Y = np.asarray(sol.Y)
@@ -156,7 +163,7 @@ def local_dense_ladder(scheme, prob, ks, t0=0.3):
     """one step from the exact solution at t0; error of the dense value at tau = 1/2 and of the step value.
     For an ODE, dense order q means local error O(h^(q+1)), step order p means local error O(h^(p+1))."""
     from Solverz import Rodas, Opt
-    name, dae, y0, exact, comps = prob
+    name, dae, y0, exact, comps = prob[:5]
     p, q = SCHEMES[scheme]
     hs, e_mid, e_end = [], [], []
     for k in ks:
@@ -244,7 +251,9 @@ def run(rep, tier, seed):
     for prob in problems():
         for scheme in SCHEMES:
             try:
-                if "from t0=0" in prob[0]:
+                if "from t0=1000" in prob[0]:
+                    r = ladder(scheme, prob, [5, 6, 7, 8], floor=2e-10)
+                elif "from t0=0" in prob[0]:
                     # dF/dt is a forward difference with a relative increment of sqrt(eps): its noise (1.5e-8 / h per unit of F) puts a
                     # floor of about 1e-11 under the dense values; the ladder stays above it
                     r = ladder(scheme, prob, [1, 2, 3, 4, 5], floor=5e-11)
